@@ -136,6 +136,11 @@ def nameFuel (m : Bytes) : Nat :=
 def decodeName (m : Bytes) (off : Nat) : R (Bytes × Nat) :=
   decodeGo m (nameFuel m) { off := off, orig := off }
 
+/-- mirrors the public `decodeNameWithLoopDetection(data, offset, size, name, visitedPointers)` called with a visited set the
+CALLER supplies (possibly non-empty: every offset in it is refused as a pointer target) -/
+def decodeNameVisited (m : Bytes) (off : Nat) (visited : List Nat) : R (Bytes × Nat) :=
+  decodeGo m (nameFuel m) { off := off, orig := off, visited := visited }
+
 /-- the scan of `decodeNameFromRdata` that recomputes how many RDATA bytes the name occupied -/
 def scanRdata (r : Bytes) (c : Nat) : R Nat :=
   if c < r.length then
@@ -167,7 +172,7 @@ def rdataName (m : Bytes) (rdStart rdOff : Nat) (r : Bytes) : R (Bytes × Nat) :
       else pure none)
     match direct with
     | some p =>
-      if p < m.length ∧ p + 1 < m.length then do
+      if p + Gen.Dns.rdataPointerMargin < m.length then do
         let (n, _) ← decodeName m p
         pure (n, rdOff + 2)
       else .error .rdBadPointer
@@ -518,7 +523,10 @@ def encodeName (name : Bytes) : R Bytes :=
   else
     match encodeLabels (labelsOf name) with
     | .error e => .error e
-    | .ok enc => if enc.length > Gen.Dns.maxName then .error .encName else .ok enc
+    | .ok enc =>
+      -- the length test sits behind `encoded.push_back(0)` (the root octet is counted) — or, in a tree where it sits inside
+      -- the label loop, before the root label is appended
+      if (if Gen.Dns.encodeLimitCountsRoot then enc.length else enc.length - 1) > Gen.Dns.maxName then .error .encName else .ok enc
 
 /-- the questions loop of `buildQuery` -/
 def encodeQuestions : List Question → R Bytes
